@@ -792,7 +792,7 @@ Proof.
 Qed.
 
 (* ====================================================================================== *)
-(* C. After gc                                                                              *)
+(* C. After gc_sweep                                                                              *)
 (* ====================================================================================== *)
 Lemma gc_live m m' u : gc_rel m m' u -> forall sp id, ent_live m sp id -> In (sp, id) u -> ent_live m' sp id.
 Proof.
@@ -821,7 +821,7 @@ Proof.
 Qed.
 
 Theorem emit_total_after_gc_final_partial cf ver w s m' ilen dw :
-  valid_stream w -> parseM cf ver w = POk s -> refs_in_range w (ps_ids s) -> gc (ps_m s) = Ok m' ->
+  valid_stream w -> parseM cf ver w = POk s -> refs_in_range w (ps_ids s) -> gc_sweep (ps_m s) = Ok m' ->
   exists e, emitM m' ilen dw = Ok e.
 Proof.
   intros V E RR Hgc. destruct (gc_shape _ _ Hgc) as (u & Hu & R).
